@@ -557,7 +557,8 @@ func c02DecompNTT(c *Ctx, po bool, ch c02Chain) {
 		N := params.N()
 		ringQ, ringP := params.RingQ(), params.RingP()
 		gQ, gP := c02PrimRoots(ringQ), c02PrimRoots(ringP)
-		eval := rlwe.NewEvaluator(params, nil)
+		eval0 := rlwe.NewEvaluator(params, nil)
+		evals := []*rlwe.Evaluator{eval0, eval0.ShallowCopy(), eval0.ShallowCopy().ShallowCopy()}
 		for _, levelQ := range c02Levels(len(ch.Q)) {
 			levelP := r.Intn(len(ch.P))
 			nbPi := levelP + 1
@@ -576,7 +577,7 @@ func c02DecompNTT(c *Ctx, po bool, ch c02Chain) {
 				dq[i] = rqp.NewPoly()
 			}
 			out := Try(func() string {
-				eval.DecomposeNTT(levelQ, levelP, nbPi, c2, isNTT == 1, dq)
+				evals[levelQ%len(evals)].DecomposeNTT(levelQ, levelP, nbPi, c2, isNTT == 1, dq)
 				parts := make([]string, size)
 				for i := range dq {
 					parts[i] = Mat(c02RowsCopy(dq[i].Q, levelQ+1)) + "|" + Mat(c02RowsCopy(dq[i].P, levelP+1))
